@@ -35,7 +35,13 @@ def responses(mixers_present):
     }
 
 
-async def _run(ans, mixers_present, provides):
+def announced_kinds():
+    """request kinds announced by the frame-version table of the captured sensor-data message"""
+    sensor = _payload("messages/sensor_data.json", "short_sensor_data_without_thermostats")
+    return [sensor[1 + 3 * i] for i in range(sensor[0])]
+
+
+async def _run(ans, mixers_present, provides, versions=False):
     from pyplumio.devices.ecomax import EcoMAX
     from pyplumio.frames.messages import SensorDataMessage
     from pyplumio.structures.network_info import NetworkInfo
@@ -46,20 +52,23 @@ async def _run(ans, mixers_present, provides):
     rest = sensor[1 + 3 * sensor[0]:]
     resp = responses(mixers_present)
     counts = {}
+    # with the genuine version table the device also refreshes every announced kind once (C15): that request is not a set-up
+    # attempt, so the controller counts attempts after it
+    extra = {code: 1 for code in announced_kinds()} if versions else {}
 
     async def controller():
         while True:
             fr = await q.get()
             code = int(fr.frame_type)
             counts[code] = counts.get(code, 0) + 1
-            if ans.get(code) == counts[code] and code in resp:
+            if ans.get(code) is not None and ans.get(code) + extra.get(code, 0) == counts[code] and code in resp:
                 cls, payload = resp[code]
                 dev.handle_frame(cls(message=bytearray(payload)))
 
     ctl = asyncio.ensure_future(controller())
     t0 = loop.time()
     setup = asyncio.ensure_future(dev.async_setup())
-    dev.handle_frame(SensorDataMessage(message=bytearray(b"\x00" + rest)))
+    dev.handle_frame(SensorDataMessage(message=bytearray(sensor if versions else b"\x00" + rest)))
     await asyncio.wait_for(setup, timeout=1000)
     loaded = loop.time() - t0
     for _ in range(5):
@@ -71,7 +80,7 @@ async def _run(ans, mixers_present, provides):
     for t in list(dev.tasks):
         t.cancel()
     await asyncio.gather(ctl, *dev.tasks, return_exceptions=True)
-    return {"errors": errors, "loaded_s": loaded, "tx": [[code, counts.get(code, 0)] for code, _ in provides], "data": data,
+    return {"errors": errors, "loaded_s": loaded, "tx": [[code, counts.get(code, 0) - extra.get(code, 0)] for code, _ in provides], "data": data,
             "loaded": bool(is_loaded)}
 
 
@@ -97,6 +106,10 @@ class C16(Prop):
             return cases
         for _ in range(300):
             cases.append({"kind": "pattern", "ans": [[k, rng.choice([[], [1], [2], [3]])] for k in kinds], "mixers": rng.random() < 0.5})
+        # the sensor data that opens set-up carries its genuine frame-version table (several set-up kinds are announced in it)
+        for _ in range(150):
+            cases.append({"kind": "pattern+versions", "ans": [[k, rng.choice([[], [], [1], [2], [3]])] for k in kinds],
+                          "mixers": rng.random() < 0.5, "versions": True})
         return cases
 
     def extra_coverage(self):
@@ -105,7 +118,7 @@ class C16(Prop):
     def run_impl(self, c):
         ans = {k: (a[0] if a else None) for k, a in c["ans"]}
         provides = [(k, n) for k, n in G.tables()["setup_frames"]]
-        r = vloop.run(_run, ans, c["mixers"], provides)
+        r = vloop.run(_run, ans, c["mixers"], provides, c.get("versions", False))
         assert abs(r["loaded_s"] / 3.0 - round(r["loaded_s"] / 3.0)) < 1e-9, r
         return [r["errors"], int(round(r["loaded_s"] / 3.0)), r["tx"], r["data"], r["loaded"]]
 
